@@ -132,6 +132,14 @@ func (e *Engine) global(x *Exec, g *ssa.Global) *Cell {
 	}
 	e.mu.Lock()
 	c := e.globals[g]
+	if c != nil && g.Name() == "closers" && g.Pkg != nil && g.Pkg.Pkg.Path() == "github.com/go-openapi/swag" {
+		// swag's package initialiser is not run (the package is called natively or through models),
+		// but the interpreted ConcatJSON looks up the closing bracket in this table
+		if mv, ok := c.V.(*MapVal); ok && mv.M == nil {
+			c.V = &MapVal{M: &MapObj{KeyT: types.Typ[types.Uint8], Frozen: true, E: []MapEntry{
+				{K: mkBV(8, '{'), V: mkBV(8, '}')}, {K: mkBV(8, '['), V: mkBV(8, ']')}}}}
+		}
+	}
 	e.mu.Unlock()
 	e.checkInit(g.Pkg)
 	if c == nil {
